@@ -1466,8 +1466,11 @@ DOMStringHelper::NumberToCharacters(
             theZeroString,
             sizeof(theZeroString) / sizeof(theZeroString[0]) - 1);
     }
-    else if (static_cast<XMLInt64>(theValue) == theValue)
+    else if (theValue > -9223372036854775808.0 && theValue < 9223372036854775808.0 &&
+             static_cast<XMLInt64>(theValue) == theValue)
     {
+        // (The range test comes first: converting a value the integer type
+        // cannot hold is undefined.)
         NumberToCharacters(static_cast<XMLInt64>(theValue), formatterListener, function);
     }
     else
@@ -1753,8 +1756,11 @@ NumberToDOMString(
             theZeroString,
             sizeof(theZeroString) / sizeof(theZeroString[0]) - 1);
     }
-    else if (static_cast<XMLInt64>(theValue) == theValue)
+    else if (theValue > -9223372036854775808.0 && theValue < 9223372036854775808.0 &&
+             static_cast<XMLInt64>(theValue) == theValue)
     {
+        // (The range test comes first: converting a value the integer type
+        // cannot hold is undefined.)
         NumberToDOMString(static_cast<XMLInt64>(theValue), theResult);
     }
     else
